@@ -26,12 +26,15 @@ CHECKS['C04'] = ('4.C04', 'The complete sequence of action invocations (void and
                  'cursor restored; eager and lazy inputs.')
 CHECKS['C08'] = ('4.C08', 'The complete hook sequence start / apply / success / failure / unwind / raise of the real match() machinery is proved equal to the reference protocol (balanced, '
                  'truthful, properly nested) for grammars of named rules over symbolic sub-rules, for controls with and without unwind(), with none / void / bool vetoing or throwing actions, '
-                 'including exceptions from must-rules, sub-rules and actions and their conversion by try_catch rules; balance of whole runs follows by induction over frames.')
+                 'including exceptions from must-rules, sub-rules and actions and their conversion by try_catch rules, sub-rules with the simple rule interface, and runs made during stack unwinding; '
+                 'balance of whole runs follows by induction over frames. The real coverage<>() (coverage_state, visit<>, state_control<>::type) is run on 10-13 grammars: every rule and '
+                 'branch entry satisfies start == success + failure + unwind in every outcome, every counter equals the reference event count, the name stack is empty afterwards.')
 
 CHECKS['C05'] = ('4.C05', 'Rules of the must / raise / try_catch families (return_false and raise_nested, typed, any, std, default), nested in predicates, repetitions and choices, plus must_if<> '
                  'controls, are proved against the reference semantics over symbolic sub-rules that fail after consuming, raise or throw foreign exceptions: identity of the first blamed rule, '
-                 'position within [start of attempt, furthest point], byte/line/column consistency, unchanged propagation, exact conversion with cursor restore. Not claimed: parse_error '
-                 'message/what() formatting and std::throw_with_nested (libstdc++ string/stream internals cannot be encoded).')
+                 'position within [start of attempt, furthest point], byte/line/column consistency, unchanged propagation, exact conversion with cursor restore. Second part: the real '
+                 'normal<Rule>::raise / raise_nested, parse_error construction, what() == source:line:column: message, message(), position_object(), and the nested exceptions of '
+                 'try_catch_*_raise_nested / parse_nested under the real control (stub <sstream>, C models of libstdc++ externals validated against the genuine library on every run).')
 
 CHECKS['C13'] = ('4.C13', 'For grammars with the state<> rule and rules whose action class derives from change_state(s) / change_action / change_action_and_state / change_control / '
                  'enable_action / disable_action (plus action<> / control<> rules), the complete log of state construction, the state instance and action class every action sees, the control that sees '
